@@ -36,6 +36,13 @@ func (d *Data) DescribeTKeyClass(tkc storage.TKeyClass) string {
 
 // NewTKey returns the "key" key component.
 func NewTKey(key string) (storage.TKey, error) {
+	// The stored key is terminated by a zero byte so that no key is a prefix of another;
+	// a key containing a zero byte would break that and alias other keys' version scans.
+	for i := 0; i < len(key); i++ {
+		if key[i] == 0 {
+			return nil, fmt.Errorf("key %q contains a zero byte, which is not allowed", key)
+		}
+	}
 	return storage.NewTKey(keyStandard, append([]byte(key), 0)), nil
 }
 
